@@ -59,7 +59,19 @@ TwoRoots(o1, o2) ==
    abstract |-> {},
    expr |-> [e \in {"a", "b", "c", "d", "p", "q"} |->
                IF e = "a" THEN Op(o1, <<Leaf("b"), Leaf("c")>>) ELSE IF e = "p" THEN Op(o2, <<Leaf("q"), Leaf("c")>>) ELSE None]]
-Shapes == {TwoRoots(o1, o2) : o1 \in (IF Deep THEN Ops ELSE {"oneof"}), o2 \in (IF Deep THEN Ops ELSE {"andor", "oneof"})}
+(* a conjunction whose left operand still has a choice open below it (m is a supertype of its own, with a mentioned *)
+(* and an unmentioned subtype, the mentioned one a supertype again) and whose right operand can fail: the matcher    *)
+(* leaves the left operand undecided in its first pass and gives up at the right one                                 *)
+Staged(inner, mabs) ==
+  [ents |-> <<"r", "b", "c", "m", "n", "p", "q">>,
+   supers |-> [e \in {"r", "b", "c", "m", "n", "p", "q"} |->
+                 CASE e \in {"b", "c", "m"} -> {"r"} [] e \in {"n", "p"} -> {"m"} [] e = "q" -> {"n"} [] OTHER -> {}],
+   abstract |-> IF mabs THEN {"m"} ELSE {},
+   expr |-> [e \in {"r", "b", "c", "m", "n", "p", "q"} |->
+               CASE e = "r" -> Op("and", <<Op(inner, <<Leaf("b"), Leaf("m")>>), Leaf("c")>>)
+                 [] e = "m" -> Leaf("n") [] e = "n" -> Leaf("q") [] OTHER -> None]]
+Shapes == {Staged(inner, mabs) : inner \in (IF Deep THEN Ops ELSE {"andor"}), mabs \in (IF Deep THEN BOOLEAN ELSE {TRUE})}
+          \cup {TwoRoots(o1, o2) : o1 \in (IF Deep THEN Ops ELSE {"oneof"}), o2 \in (IF Deep THEN Ops ELSE {"andor", "oneof"})}
           \cup {Unmentioned(o2, abs) : o2 \in (IF Deep THEN Ops ELSE {"oneof"}), abs \in BOOLEAN}
           \cup {Wide(top, inner, mirror) : top \in (IF Deep THEN {"andor", "and"} ELSE {"andor"}),
                                           inner \in (IF Deep THEN {"and", "andor"} ELSE {"and"}), mirror \in BOOLEAN}
